@@ -51,6 +51,7 @@ type abortPath struct {
 type workItem struct {
 	prefix []Decision
 	model  smt.Model
+	sleep  []TInfo // sleep set to install once the prefix has been replayed
 }
 
 type pathState struct {
@@ -96,6 +97,10 @@ type pathState struct {
 	raceSeen   map[string]bool
 
 	expectPanic int
+	harnessRaces int
+	sleep       []TInfo
+	itemSleep   []TInfo
+	objIDs      map[interface{}]int
 	completed   bool
 	rw          map[*value]*rwState
 	once        map[*value]*value
@@ -129,6 +134,10 @@ func newPathState(eng *Engine, solver *smt.Solver, item workItem) *pathState {
 	if item.model != nil {
 		ps.model = item.model
 		ps.modelOK = true
+	}
+	ps.itemSleep = item.sleep
+	if len(item.prefix) == 0 {
+		ps.sleep = item.sleep
 	}
 	solver.Reset()
 	return ps
@@ -211,6 +220,9 @@ func (ps *pathState) next(kind byte) (Decision, bool) {
 			ps.inconclusive("engine nondeterminism")
 		}
 		ps.pos++
+		if ps.pos == len(ps.prefix) {
+			ps.sleep = ps.itemSleep
+		}
 		return d, true
 	}
 	return Decision{}, false
@@ -220,7 +232,7 @@ func (ps *pathState) pushSibling(d Decision, m smt.Model) {
 	p := make([]Decision, len(ps.trace)+1)
 	copy(p, ps.trace)
 	p[len(ps.trace)] = d
-	ps.siblings = append(ps.siblings, workItem{prefix: p, model: m})
+	ps.siblings = append(ps.siblings, workItem{prefix: p, model: m, sleep: append([]TInfo(nil), ps.sleep...)})
 	ps.forks++
 }
 
